@@ -332,6 +332,17 @@ def run(tier="quick", seed=0):
                     failures.append({"key": "find_job_ids:" + json.dumps(f, sort_keys=True)[:80],
                                      "description": f"Project._find_job_ids disagrees with per-job evaluation: filter {f}, got {got if isinstance(got, str) else sorted(got)}, expected {sorted(expected)}",
                                      "script": mk_script(view, f, expected, "project")})
+    # list values holding mappings (which hold mappings): every query over the key still answers (defect F29, repaired: _to_hashable did
+    # not descend into mapping values, the index of such a key could not be built and find / groupby / detect_schema raised TypeError)
+    docs = {"j1": {"sp": {"a": [1, {"p": {"u": 1}}], "b": 1}}, "j2": {"sp": {"a": [2], "b": 2}}, "j3": {"sp": {"a": [1, {"p": {"u": 1}}], "b": 3}}}
+    for f, want in (({"sp.a": [2]}, {"j2"}), ({"sp.a": [1, {"p": {"u": 1}}]}, {"j1", "j3"}), ({"sp.a": {"$ne": [2]}}, {"j1", "j3"}), ({"sp.b": {"$gt": 1}}, {"j2", "j3"})):
+        try:
+            got = set(_SearchIndexer(json.loads(json.dumps(docs))).find(f))
+        except Exception as e:
+            got = f"raised {type(e).__name__}: {e}"
+        evals += 1
+        if got != want and len(failures) < 3:
+            failures.append({"key": "find:mapping-inside-list", "description": f"documents {docs}: find({f}) gives {got if isinstance(got, str) else sorted(got)}, expected {sorted(want)}", "script": ""})
     # probe for known finding F3 (reported under its bounded_key when it still manifests)
     ix = _SearchIndexer({"a": {"sp": {"v": False}}, "b": {"sp": {"v": 0}}})
     if set(ix.find({"sp.v": {"$type": "bool"}})) != {"a"}:
